@@ -147,7 +147,7 @@ Failed(r) ==
 Init == i = 0
 Next == /\ i < Len(Trace)
         /\ i' = i + 1
-        /\ LET r == Trace[i + 1] f == Failed(r) IN f = {} \/ PrintT(<<"BAD", r.id, f>>)
+        /\ LET r == Trace[i + 1] f == Failed(r) IN IF f = {} THEN TRUE ELSE PrintT(<<"BAD", r.id, f>>)
 Spec == Init /\ [][Next]_i
 Done == (i = Len(Trace)) => PrintT(<<"DONE", i>>)
 AllConsumed == TLCGet("stats").diameter - 1 = Len(Trace)
